@@ -207,3 +207,31 @@ pub fn stmt(s: &a::Statement) -> m::Stmt {
         },
     }
 }
+
+/// every statement of the program in source (pre-)order: the order in which the renderer numbers them
+pub fn statements_preorder(p: &a::Program) -> Vec<&a::Statement> {
+    fn blk<'x>(b: &'x a::Block, out: &mut Vec<&'x a::Statement>) {
+        if let a::Block::NonEmpty(ss) = b {
+            for s in ss {
+                out.push(s);
+                match s {
+                    a::Statement::If(x) => {
+                        blk(&x.then_block, out);
+                        if let Some(e) = &x.else_block {
+                            blk(e, out);
+                        }
+                    }
+                    a::Statement::While(x) => blk(&x.block, out),
+                    a::Statement::Until(x) => blk(&x.block, out),
+                    a::Statement::Function(x) => blk(&x.data.body, out),
+                    _ => {}
+                }
+            }
+        }
+    }
+    let mut out = Vec::new();
+    for b in &p.code {
+        blk(b, &mut out);
+    }
+    out
+}
